@@ -802,9 +802,15 @@ pub fn range_ops(case: &mut Case, n: usize, full: bool) -> Vec<Vec<Op>> {
                 ops.push(Op::Splice { v: 0, lo: canon.0, hi: canon.1, typed, repl: Repl::Wrappers(vec![case.fresh_id()]), script: st, end: End::Drop });
             }
         }
-        // the bulk methods an implementation may override: the rest of the range is consumed through count / last / fold / rfold / step_by
-        for end in End::FINISHERS {
+        // the bulk methods and early-exit searches an implementation may override: the rest of the range is consumed through
+        // count / last / fold / rfold / step_by / for_each / max_by_key / min_by_key, or searched by find / rfind / position /
+        // rposition / any / all (aimed at the first, middle and last element of the range and at one outside it)
+        for end in End::finishers(&[a, (a + b) / 2, b.saturating_sub(1), b]) {
+            let search = end.index().is_some();
             for (pattern, typed) in [(0usize, false), (1, false), (2, false), (0, true), (2, true)] {
+                if search && (pattern == 1 || (pattern == 2 && typed)) {
+                    continue;
+                }
                 let st: Vec<Step> = match pattern {
                     0 => vec![],
                     1 => vec![Step { back: false, sink: Sink::DOWNCAST, skip: 0 }],
@@ -814,7 +820,7 @@ pub fn range_ops(case: &mut Case, n: usize, full: bool) -> Vec<Vec<Op>> {
                     continue;
                 }
                 ops.push(Op::Drain { v: 0, lo: canon.0, hi: canon.1, typed, script: st.clone(), end });
-                if pattern != 1 {
+                if pattern == 0 || (pattern == 2 && !search) {
                     ops.push(Op::Splice { v: 0, lo: canon.0, hi: canon.1, typed, repl: Repl::Wrappers(vec![case.fresh_id(), case.fresh_id()]), script: st, end });
                 }
             }
@@ -896,12 +902,16 @@ pub fn iter_ops(_case: &mut Case, n: usize, _full: bool) -> Vec<Vec<Op>> {
             }
         }
     }
-    // the bulk methods an implementation may override: count / last / fold / rfold / step_by after 0..2 steps from either end
+    // the bulk methods and early-exit searches an implementation may override (count / last / fold / rfold / step_by / for_each /
+    // max_by_key / min_by_key / find / rfind / position / rposition / any / all) after 0..3 steps from either end
     for how in hows {
-        for end in End::FINISHERS {
+        for end in End::finishers(&[0, n / 2, n.saturating_sub(1), n]) {
             for script in [vec![], vec![false], vec![true], vec![false, true], vec![true, true, false]] {
+                if end.index().is_some() && script.len() == 1 {
+                    continue;
+                }
                 ops.push(Op::IterScript { v: 0, how, script: script.clone(), skips: vec![], clone_at: None, end });
-                if matches!(how, IterHow::Iter | IterHow::TIter) && !script.is_empty() {
+                if matches!(how, IterHow::Iter | IterHow::TIter) && !script.is_empty() && end.index().is_none() {
                     ops.push(Op::IterScript { v: 0, how, script, skips: vec![], clone_at: Some(0), end });
                 }
             }
